@@ -154,10 +154,31 @@ def facts_path(config, root=None):
         if len(rmetas) != 1:
             raise InfraError("expected exactly one libspecs rmeta, found %r" % rmetas)
         shutil.copy(rmetas[0], os.path.join(outdir, "libspecs.rmeta"))
+        with open(os.path.join(target, ".last_tree"), "w") as fh:
+            fh.write(th)
         with open(os.path.join(outdir, "ok"), "w") as fh:
             fh.write("%.1f\n" % (time.time() - t0))
         _prune_cache()
     return fact
+
+
+def ensure_target_current(config, root=None):
+    """The cached libspecs.rmeta of a tree is only usable together with the dependency artefacts (proc-macro dylibs, rmetas) that
+    were in the shared target directory when it was built.  If another tree was built there since (a seeded change, a scratch copy
+    at the same path), rebuild this tree so that witnesses never see a mixture."""
+    root = root or repo()
+    th = tree_hash(root)
+    target = os.path.join(CACHE, "target", config)
+    try:
+        with open(os.path.join(target, ".last_tree")) as fh:
+            last = fh.read().strip()
+    except OSError:
+        last = None
+    if last != th:
+        okf = os.path.join(CACHE, "facts", th, config, "ok")
+        if os.path.exists(okf):
+            os.remove(okf)
+        facts_path(config, root)
 
 
 def load(config, root=None):
